@@ -17,6 +17,8 @@ structure St where
   hyp     : Bool := true    -- the hypotheses of C16_complete / C16_complete_resumed held for every scan so far
   tainted : Bool := false   -- an injected FilterBlocks failure fired: in-process retry is outside the model (finding)
   stopped : Bool := false   -- the wallet was stopped mid-recovery (`how=stop`, `halt=1`) and is not loaded
+  mainnet : Bool := false   -- `rinit net=main`: production-network parameters (syncWithChain waits for the backend first)
+  inited  : Bool := false
 
 def noInvalid : BranchId → List Nat := fun _ => []
 
@@ -158,8 +160,21 @@ def step (s : St) (line : String) : St × String :=
   | ["bst"] => (s, showBranch s.br)
   | "rinit" :: rest =>
     match (kv rest "scopes").bind natList?, natOf rest "batch" with
-    | some scopes, some batch => ({ s with scopes := scopes, blocks := [], done := 0, rs := none, batch := batch, tainted := false, hyp := true, mem := [], stopped := false }, "ok")
+    | some scopes, some batch =>
+      match kv rest "net" with
+      | some n =>
+        if n != "main" && n != "sim" then (s, "bad-op") else
+        ({ s with scopes := scopes, blocks := [], done := 0, rs := none, batch := batch, tainted := false, hyp := true, mem := [], stopped := false, mainnet := n == "main", inited := true }, "ok")
+      | none => ({ s with scopes := scopes, blocks := [], done := 0, rs := none, batch := batch, tainted := false, hyp := true, mem := [], stopped := false, mainnet := false, inited := true }, "ok")
     | _, _ => (s, "bad-op")
+  | "rnotcurrent" :: rest =>
+    -- the backend is still in initial block download when the wallet next connects (serves heights ≤ until, IsCurrent
+    -- false, then catches up).  On a production network `syncWithChain` waits until the backend is current BEFORE the
+    -- birthday search, the rollback check and `recovery()`: the start-up sync then runs against the whole chain, i.e.
+    -- the op changes nothing in the model
+    match natOf rest "until" with
+    | some h => if s.inited && s.mainnet && h ≤ s.blocks.length then (s, "ok") else (s, "bad-op")
+    | none => (s, "bad-op")
   | "rblk" :: rest =>
     -- `m<id>` = the unmined transaction <id> handed to the wallet earlier (rmempool) is mined in this block
     let parse1 := fun (x : String) =>
